@@ -110,12 +110,20 @@ def run(ctx):
             "mean": float(np.mean(t.start)), "mean0": np.mean(mat, axis=0), "bincount": np.bincount(t.score), "hist": np.histogram(t.stop, bins=5, range=(0, 100))[0],
             "groups": [(k, [x[3] for x in rows if x[0] == k]) for k in sorted(set(x[0] for x in rows))],
         }
+        big_values = np.array([r.choice([-2 ** 60, 2 ** 60, 1, 1, 3, -2 ** 59, 2 ** 59]) for _ in rows], dtype=np.int64)
+        ref["big_values"] = big_values
+        ref["big_mean"] = float(sum(int(v) for v in big_values) / max(1, len(big_values)))
         kc = count_kmers(seq_table.sequence, 2)
         ref["kmers"] = np.asarray(kc.counts).ravel().tolist()
         gi = genome.get_intervals(t.astype(Interval))
         pile = gi.get_pileup()
         ref["pileup_sum"] = int(np.sum(pile))
         ref["pileup_hist"] = np.histogram(np.concatenate([np.asarray(v) for v in pile.to_dict().values()]), bins=3, range=(0, 3))[0]
+        hh = np.histogram(np.concatenate([np.asarray(v) for v in pile.to_dict().values()]), bins=3)
+        ref["pileup_hist_norange"] = (hh[0].tolist(), hh[1].tolist())
+        ref["odd_window"] = r.choice([1, 3, 5, 7])
+        pdm = pile.get_data()
+        ref["pileup_rows"] = [(c_, a_, b_, v_) for c_, a_, b_, v_ in zip(chrom_names(pdm.chromosome), np.asarray(pdm.start).tolist(), np.asarray(pdm.stop).tolist(), np.asarray(pdm.value).tolist()) if v_ != 0]
         ref["mask_rows"] = tables.rows_of(gi.get_mask().get_data()) if False else list(zip(chrom_names(gi.get_mask().get_data().chromosome), np.asarray(gi.get_mask().get_data().start).tolist(), np.asarray(gi.get_mask().get_data().stop).tolist()))
         dense = pile.to_dict()
         ref["under"] = [np.asarray(dense[c][a:b]).tolist() for c, a, b, *_ in rows]
@@ -150,6 +158,10 @@ def run(ctx):
 
             g = float(np.asarray(bnp.mean(stream().start)).ravel()[0])
             chk("mean", abs(g - ref["mean"]) <= 1e-9 * max(1, abs(ref["mean"])), g, ref["mean"])
+            # integers whose partial sums leave the exactly representable range of doubles: the streamed mean must still be the mean of the exact total
+            bigv = ref["big_values"]
+            g = float(np.asarray(bnp.mean(BnpStream(iter(pieces(bigv, cuts))))).ravel()[0])
+            chk("mean:large-integers", abs(g - ref["big_mean"]) <= 1e-9 * max(1.0, abs(ref["big_mean"])), g, ref["big_mean"])
             g = np.asarray(bnp.mean(BnpStream(iter(pieces(mat, cuts))), axis=0))
             chk("mean(axis=0)", same(g, ref["mean0"]), g.tolist(), ref["mean0"].tolist())
             g = np.asarray(bnp.bincount(stream().score))
@@ -193,6 +205,34 @@ def run(ctx):
             sst = genome.get_intervals(NpDataclassStream(iter(pieces(t, cuts)), dataclass=Bed6), stranded=True)
             g = rows_under(bnp.compute(mk_iv().get_pileup()[sst]))
             chk("pipeline:values-under-stranded-intervals", g == ref["under_stranded"], g[:4], ref["under_stranded"][:4])
+            # two results computed from ONE streamed interval object in one compute(): merging (with a distance) must not disturb the pileup
+            one_gi = mk_iv()
+            mg, pl = one_gi.merged(3), one_gi.get_pileup()
+            both_res = bnp.compute((mg.start, mg.stop, pl.get_data()))
+            mm = gi.merged(3).get_data()
+            pd_ = both_res[2]
+            prow = [(c_, a_, b_, v_) for c_, a_, b_, v_ in zip(chrom_names(pd_.chromosome), np.asarray(pd_.start).tolist(), np.asarray(pd_.stop).tolist(), np.asarray(pd_.value).tolist()) if v_ != 0]
+            chk("pipeline:merged(d)+pileup-of-the-same-intervals", np.asarray(both_res[0]).tolist() == np.asarray(mm.start).tolist() and np.asarray(both_res[1]).tolist() == np.asarray(mm.stop).tolist() and prow == ref["pileup_rows"],
+                [np.asarray(both_res[0]).tolist()[:5], np.asarray(both_res[1]).tolist()[:5], prow[:4]], [np.asarray(mm.start).tolist()[:5], np.asarray(mm.stop).tolist()[:5], ref["pileup_rows"][:4]])
+            # windows of an odd and an even size around streamed locations
+            for wsz in (ref["odd_window"], 4):
+                sloc = genome.get_intervals(NpDataclassStream(iter(pieces(t.astype(Interval), cuts)), dataclass=Interval)).get_location("start")
+                wst = sloc.get_windows(window_size=wsz)
+                g = bnp.compute((wst.start, wst.stop))
+                mw = gi.get_location("start").get_windows(window_size=wsz)
+                chk("pipeline:get_windows(window_size)", np.asarray(g[0]).tolist() == np.asarray(mw.start).tolist() and np.asarray(g[1]).tolist() == np.asarray(mw.stop).tolist(), [np.asarray(g[0]).tolist()[:5], np.asarray(g[1]).tolist()[:5]], [np.asarray(mw.start).tolist()[:5], np.asarray(mw.stop).tolist()[:5]])
+            # histogram with a number of bins and no range: the in-memory value, or a refusal
+            try:
+                g = bnp.compute(np.histogram(mk_iv().get_pileup(), bins=3))
+                gh = (np.asarray(g[0]).tolist(), np.asarray(g[1]).tolist())
+            except Exception as e:
+                from bnpmon.ctx import originates_in_library
+                if not originates_in_library(e):
+                    raise
+                gh = None
+                ctx.count("histogram_without_range_refused")
+            if gh is not None:
+                chk("pipeline:pileup.histogram(no-range)", gh[0] == ref["pileup_hist_norange"][0] and np.allclose(gh[1], ref["pileup_hist_norange"][1]), gh, ref["pileup_hist_norange"])
             if wins:
                 g = rows_under(bnp.compute(mk_iv().get_pileup()[genome.get_intervals(win_t)]))
                 chk("pipeline:streamed-track[in-memory windows]", g == ref["under_windows"], g[:4], ref["under_windows"][:4])
